@@ -21,6 +21,19 @@ CLAIMED = {
              "single-threaded use. linear_operator classes are observed through run-time wrappers (site-packages is never edited).",
         technique="TLA+ state machine + TLC exhaustive check; spec-behaviour replay into the real classes; TLC trace validation of hook events"),
 }
+CLAIMED["C11"] = dict(
+    category="model_checking",
+    text="MTMVN.tla models a MultitaskMultivariateNormal as labelled (point, task) variables with a representation invariant (covariance rows "
+         "in the order the layout flag promises) and transcribes __getitem__ branch by branch over true Python index semantics (PyIndex.tla); TLC "
+         "checks Consistent and MeanIsIndexedMean for every enumerated index expression and chain. Every enumerated case is replayed on a real "
+         "distribution whose covariance has unique integer entries, so the selected pairs are decoded exactly; PyIndex.tla itself is validated "
+         "against torch indexing on every case. MTLayout.tla checks the view/transpose algebra of mean, variance, log_prob, rsample and "
+         "to_data_independent_dist for every (n, t, layout); the replay compares them and the from_* constructors with a flat reference Gaussian.",
+    design_ref="DESIGN.md section 6 (C11)",
+    note="Exhaustive over the enumerated index families on shapes up to 3x3 (4x2 thorough) with one batch dimension; index tensors 1-d of length <= 2; "
+         "log_prob/rsample numerics sampled (seeded SPD covariances, float64, 1e-9).",
+    technique="TLA+ exact-function model (index algebra, layout permutations) checked by TLC over the whole finite domain; every case replayed into the real class with exact label decoding")
+
 PENDING = "check not built yet (build in progress; see DESIGN.md section 11)"
 NOT_APPLICABLE = {}
 
